@@ -123,6 +123,30 @@ def _check_z3_old(smt2, timeout_s):
     return r, time.time() - t0
 
 
+def solve_retry(job):
+    """Second chance for an obligation the first portfolio pass left undecided (run with few processes, long budgets,
+    several seeds): verdicts must not flip to 'undecided' merely because the machine was busy."""
+    name, smt2, cover, seed, thorough, scoped = job
+    res = dict(name=name, cover=cover, backends={}, model=None)
+    final = "unknown"
+    for label, fn in (("retry-z3-cli-noematch", lambda: _check_z3_cli_model(smt2, 60)),
+                      ("retry-z3-5.1-seed1", lambda: _check_z3(smt2, 30000, seed + 11)[:2]),
+                      ("retry-cvc5", lambda: _check_cvc5(smt2, 60)),
+                      ("retry-z3-5.1-seed2", lambda: _check_z3(smt2, 60000, seed + 23)[:2]),
+                      ("retry-z3-4.8.12", lambda: _check_z3_old(smt2, 60))):
+        r, dt = fn()
+        res["backends"][label] = dict(result=r, seconds=round(dt, 3))
+        if r in ("sat", "unsat"):
+            final = r
+            break
+    if final == "sat":
+        r, dt, model, reason = _check_z3(smt2, 20000, seed)
+        if r == "sat":
+            res["model"] = model
+    res["verdict"] = {"unsat": "proved", "sat": "refuted", "unknown": "unknown"}[final]
+    return res
+
+
 def solve_one(job):
     """job = (name, smt2, cover, seed, thorough) -> result dict. Runs in a worker process."""
     name, smt2, cover, seed, thorough, scoped = job
